@@ -20,8 +20,11 @@ structure St where
 
 def hx (b : Bytes) : String := Bytes.toHexTok b
 
+/-- the first four bytes of `sha256 value` (the written values are part of the observation) -/
+def valTag (v : Bytes) : String := hx ((sha256 v).take 4)
+
 def describeW : W → String
-  | .put k _ => "put:" ++ k
+  | .put k v => "put:" ++ k ++ "=" ++ valTag v
   | .del k => "del:" ++ k
 
 def describeWS (ws : WriteSet) : String :=
@@ -67,7 +70,7 @@ def stepOp (s : St) (o : Op) : St × String :=
   | "save" =>
     let sh : Wire.SignedHeader :=
       { header := Drv.C12.headerOfOp o, signature := o.bytes "hsig", signer := Drv.C12.signerOfOp o }
-    let wss := saveBlockData sh (Drv.C12.dataOfOp o) (o.bytes "sig")
+    let wss := saveBlockData keyOk s.kv sh (Drv.C12.dataOfOp o) (o.bytes "sig")
     (commit s wss, s!"ok hash={hx sh.header.hash} ws={describe wss}")
   | "get" =>
     match u64? o "at" with
@@ -133,6 +136,11 @@ def stepOp (s : St) (o : Op) : St × String :=
         ({ s with base := kv, log := [], kv := kv }, s!"ok n={keep}")
     | none => (s, "bad-op")
   | "reopen" => ({ s with kv := reopen s.kv }, "ok")
+  | "bigsave" =>
+    -- exploration on real badger in a scratch database of the harness: the scenario's store is not touched
+    match u64? o "hdr", u64? o "data", u64? o "sig" with
+    | some _, some _, some _ => (s, "ok")
+    | _, _, _ => (s, "bad-op")
   | _ => (s, "bad-op")
 
 def step (s : St) (line : String) : St × String :=
